@@ -197,8 +197,12 @@ func runStopMid(out *cq.Out, shards int, ops []string, tag string) {
 				gateArm = false
 				close(gateFree)
 				gateMu.Unlock()
-				time.Sleep(5 * time.Millisecond)
-				s.drain()
+				// the callback runs right after the held write returns; a request, if it hands one over, is there within
+				// microseconds - wait much longer than that before the label is written down without one
+				for k := 0; k < 15 && s.dropReqs() == before; k++ {
+					time.Sleep(2 * time.Millisecond)
+					s.drain()
+				}
 				if entered {
 					mids++
 				}
